@@ -39,7 +39,7 @@ def run(ctx):
             ctx.report(classify(e, f["mon"]), {"driver": "h-programs c15 " + mode, "event": e})
     # 3. wide tier: u128 totals up to 2^128-1, deltas at +-2^127 (Apalache, unbounded integers)
     wp = ctx.path("wide.ndjson")
-    ctx.run_bin("c15", ["wide", "--seed", ctx.seed, "--n", 100 if ctx.quick else 600, "--out", wp])
+    ctx.run_bin("c15", ["wide", "--seed", ctx.seed, "--n", 60 if ctx.quick else 600, "--out", wp])
     wev = vlib.read_ndjson(wp)
     res = vlib.apalache_events(ctx, "Wide_Pool", ["Pool", "PoolProps"], wev, SCHEMA, "CInit128",
                                ["bad", "drift"], chunk=100 if ctx.quick else 200)
